@@ -1,5 +1,5 @@
 """C20 dump_to_sql leaves the table in the state its mode prescribes."""
-import copy, json
+import copy, json, datetime, decimal
 from common import *
 from flowutil import *
 import dataflows as DF
@@ -42,7 +42,12 @@ def gen_cases(rng, tier):
                       'keys_always': rng.chance(0.5)})
     for i in range(max(4, n // 8)):
         # array/object columns: the engine gets converted copies; pairing of written and original rows across batches
-        rows = [{'k': rng.randint(0, 3), 'arr': rng.pick([[1, 2], [], None, ['x', None]]), 'obj': rng.pick([{'a': 1}, {}, None, {'b': [1]}])}
+        # nested values the engine conversion turns into text (dates, decimals inside objects and arrays) must
+        # stay what they were in the rows handed on
+        rows = [{'k': rng.randint(0, 3),
+                 'arr': rng.pick([[1, 2], [], None, ['x', None], [{'d': datetime.date(2020, 1, 2)}], [decimal.Decimal('1.5'), [datetime.date(1999, 12, 31)]]]),
+                 'obj': rng.pick([{'a': 1}, {}, None, {'b': [1]}, {'d': datetime.date(2021, 3, 4), 'n': {'m': decimal.Decimal('2.50')}},
+                                  {'t': datetime.datetime(2020, 1, 2, 3, 4, 5)}])}
                 for j in range(rng.randint(1, 7))]
         cases.append({'kind': 'objects', 'rows': rows_enc(rows), 'mode': rng.pick(['rewrite', 'update']),
                       'batch': rng.pick([1, 2, 3, 1000]), 'flags': rng.chance(0.5)})
@@ -124,6 +129,17 @@ def oracle(case, out):
             if not hit:
                 table.append(dict(r))
             flags.append(hit)
+        def conv(o):        # what the column holds as JSON: dates in ISO form, decimals as numbers
+            if isinstance(o, dict):
+                return dict((k, conv(v)) for k, v in o.items())
+            if isinstance(o, (list, set, tuple)):
+                return [conv(x) for x in o]
+            if isinstance(o, (datetime.date, datetime.time)):
+                return o.isoformat()
+            if isinstance(o, decimal.Decimal):
+                return float(o)
+            return o
+        table = [dict(k=t['k'], arr=conv(t['arr']), obj=conv(t['obj'])) for t in table]
         got = []
         for t in out['table'] or []:
             try:
